@@ -199,8 +199,8 @@ pub fn silence_case_mode(ctx: &Ctx, own_timeout: u32, silent_from: u32, learning
     silence_case_adv(ctx, own_timeout, silent_from, learning, 0)
 }
 
-/// `advertise`: 0 nothing configured; 1 every node advertises the same private address (the same RFC 1918
-/// address in use on separate sites); 2 every node advertises an own distinct extra address; 3 the nodes advertise
+/// `advertise`: 0 nothing configured; 1 every node advertises the same addresses (the wildcard address of the
+/// default port, as with the default listen setting, and the same unique-local address in use on separate sites); 2 every node advertises an own distinct extra address; 3 the nodes advertise
 /// each other's socket address as well (stale / copied configuration)
 pub fn silence_case_adv(ctx: &Ctx, own_timeout: u32, silent_from: u32, learning: bool, advertise: u8) -> Vec<Viol> {
     ctx.eval();
@@ -219,8 +219,8 @@ pub fn silence_case_adv(ctx: &Ctx, own_timeout: u32, silent_from: u32, learning:
         }
         cfg.peer_timeout = own_timeout;
         match advertise {
-            1 => cfg.advertise_addresses = vec!["192.168.1.10:3210".to_string()],
-            2 => cfg.advertise_addresses = vec![format!("192.168.{}.10:3210", i + 1)],
+            1 => cfg.advertise_addresses = vec!["*:3210".to_string(), "[fd77::10]:3210".to_string()],
+            2 => cfg.advertise_addresses = vec![format!("[fd77::{}]:3210", i + 1), format!("192.168.{}.10:3210", i + 1)],
             3 => cfg.advertise_addresses = vec![crate::sim::sim_addr((i + 1) % 3).to_string()],
             _ => {}
         }
